@@ -121,3 +121,42 @@ def compare(case, got, exp):
                     kind = "keys"
             return (i, kind)
     return None
+
+
+# ------------------------------------------------------------------------------------------------
+# magnitude family (oracle only): long windows over LARGE integer columns (amounts in cents): the running sums stay
+# int64 in streamz, so a formula that squares the running sum (instead of dividing first) wraps around silently
+# ------------------------------------------------------------------------------------------------
+def magnitude_table(case):
+    n = case["rows"]
+    i = np.arange(n, dtype="int64")
+    vals = case["base"] + (i * 7919) % case["spread"]
+    if case["dtype"] == "float":
+        vals = vals.astype("float64")
+    index = pd.date_range("2024-01-01", periods=n, freq="1s")
+    return pd.DataFrame({"x": vals, "y": (i * 31) % 17}, index=index)
+
+
+def run_magnitude(case):
+    """returns None or (batch index, got, expected)"""
+    df = magnitude_table(case)
+    sdf = DataFrame(example=df.iloc[:0])
+    if case["win"] == "n":
+        w = sdf.window(n=case["w"])
+    else:
+        w = sdf.window(value=pd.Timedelta(seconds=case["w"]))
+    obj = w.x if case["shape"] == "series" else w
+    L = _apply(obj, case["agg"], False).stream.sink_to_list()
+    B = case["batch"]
+    for b in range((len(df) + B - 1) // B):
+        sdf.emit(df.iloc[b * B:(b + 1) * B])
+        seen = df.iloc[:(b + 1) * B]
+        win = seen.iloc[-case["w"]:] if case["win"] == "n" else seen[seen.index > seen.index.max() - pd.Timedelta(seconds=case["w"])]
+        exp = _apply(win.x if case["shape"] == "series" else win, case["agg"], False)
+        if len(L) != b + 1:
+            return (b, "nothing emitted", repr(exp))
+        g = np.asarray(L[-1], dtype=float)
+        e = np.asarray(exp, dtype=float)
+        if g.shape != e.shape or not np.allclose(g, e, rtol=1e-6, atol=0, equal_nan=True):
+            return (b, g.tolist(), e.tolist())
+    return None
